@@ -345,6 +345,50 @@ def case_variants(desc, rng=None, k=None):
     return out
 
 
+SIG_PENDING = 'c03:pending-batches-metadata'
+
+
+def check_pending(elfi, variant):
+    """Several batches are LOADED before any of them is executed (lazy native client: submit, submit, ..., wait_next, ...): every batch must run
+    with ITS OWN run metadata / batch size.  variant = dict(models=1|2, pending=k).  One model: Constant -> Operation(uses_meta) recording what it
+    is called with; two models: their handlers are interleaved (submit A, submit B, submit A, ...).  -> None or dict(signature, what)"""
+    from elfi.client import BatchHandler
+    from elfi.clients.native import Client
+    from elfi.model.elfi_model import ComputationContext
+    k, nm_ = variant['pending'], variant['models']
+    hs = []
+    for j in range(nm_):
+        rec = Recorder()
+        m = elfi.ElfiModel(name='pm%d' % j)
+        c = elfi.Constant(('const', j), name='c', model=m)
+        o = elfi.Operation(rec.op('op%d' % j), c, name='o', model=m)
+        o.uses_meta = True
+        sim = elfi.Simulator(rec.op('sim%d' % j), o, name='s', model=m)
+        ctx = ComputationContext(batch_size=BS + j, seed=100 + j)
+        hs.append((m, ctx, BatchHandler(m, ctx, ['o', 's'], client=Client())))
+    try:
+        with native.time_limit(20):
+            for i in range(k):
+                for m, ctx, h in hs:
+                    h.submit()
+            for i in range(k):
+                for j, (m, ctx, h) in enumerate(hs):
+                    batch, bi = h.wait_next()
+                    exp_o = ('op%d' % j, (('const', j),), (('meta', ('META', i, i, 100 + j, 'pm%d' % j)),))
+                    exp_s = ('sim%d' % j, (exp_o,), (('batch_size', BS + j), ('random_state', 'RS')))
+                    if bi != i or batch['o'] != exp_o or batch['s'] != exp_s:
+                        return dict(signature=SIG_PENDING, what='model pm%d, batch %d of %d pending: executed with %r / %r, its own metadata and batch size give %r / %r'
+                                    % (j, i, k, batch['o'], batch['s'][2], exp_o, exp_s[2]))
+    except native.NativeTimeout as e:
+        return dict(signature='c03:timeout', what=str(e))
+    except Exception as e:
+        return dict(signature='c03:exception', what='pending batches: %s: %s' % (type(e).__name__, str(e)[:160]))
+    return None
+
+
+PENDING_VARIANTS = [dict(kind='pending', models=m, pending=k) for m in (1, 2) for k in (1, 2, 3)]
+
+
 def run(tier='quick', seed=0, first_failure_only=False, want=None, budget_s=None):
     """-> bounded result dict.  One failure is kept per signature (the first one met)."""
     import time
@@ -388,6 +432,15 @@ def run(tier='quick', seed=0, first_failure_only=False, want=None, budget_s=None
         return False
 
     stop = False
+    for v in PENDING_VARIANTS:
+        cases += 1
+        nontrivial += 1 if v['pending'] > 1 else 0
+        f = check_pending(elfi, v)
+        if f:
+            seen[f['signature']] = seen.get(f['signature'], 0) + 1
+            if seen[f['signature']] == 1:
+                f['input'] = dict(v)
+                failures.append(f)
     n_wide = 0
     for desc, obs_sets, out_sets in models_wide():
         n_wide += 1
@@ -419,6 +472,7 @@ def run(tier='quick', seed=0, first_failure_only=False, want=None, budget_s=None
     bound = ('all models <= %d nodes x all (observed, with_values, outputs) subsets; all models of %d nodes x %s; ' % (
         n_ex_full, n_ex, 'all subsets' if not k_ex else 'canonical + %d sampled subsets' % k_ex)) + \
         '; '.join('%d seeded random models of %d nodes x (canonical + %d sampled subsets)' % (c, n, k) for n, c, k in plan_random) + \
+        '; %d runs with 1-3 batches loaded before any is executed (one model / two interleaved models, uses_meta recorder)' % len(PENDING_VARIANTS) + \
         '; %d fixed models with fan-in 11 / 12 (Operation + named parent, Summary with observed twin, Discrepancy; shuffled declared order)' % n_wide + \
         '; classes Constant/Operation/Prior/Simulator/Summary/Discrepancy, positional (both declared orders) and named edges, batch_size %d' % BS
     return dict(name='pipeline-dataflow-semantics', bound=bound,
@@ -429,6 +483,8 @@ def run(tier='quick', seed=0, first_failure_only=False, want=None, budget_s=None
 def replay_input(inp):
     """True iff the property HOLDS on this input"""
     elfi = native.import_elfi()
+    if inp.get('kind') == 'pending':
+        return check_pending(elfi, inp) is None
     return check_case(elfi, inp, inp.get('seed')) is None
 
 
